@@ -63,6 +63,10 @@ def _run_task(task):
         return {"contract": cname, "instance": iname, "error": "checker-error: " + traceback.format_exc(), "obligations": 0, "discharged": 0, "failed": [], "undecided": [], "by_backend": {}, "inherited": [], "solver_s": {}, "wall_s": 0.0, "samples": [], "kernel_calls": {}, "prims_seen": {}, "selfcheck": {}, "num_eqns": 0, "assumptions_used": 0}
 
 
+def _run_extra(pid, tier, seed):
+    return _load_property(pid).extra_checks(tier, seed)
+
+
 def _error_result(task, msg):
     return {"contract": task[1], "instance": task[2], "error": msg, "obligations": 0, "discharged": 0, "failed": [], "undecided": [], "by_backend": {}, "inherited": [], "solver_s": {}, "wall_s": 0.0, "samples": [], "kernel_calls": {}, "prims_seen": {}, "selfcheck": {}, "num_eqns": 0, "assumptions_used": 0}
 
@@ -140,7 +144,19 @@ def main(argv=None):
         finally:
             pool.terminate()
     if hasattr(mod, "extra_checks") and not args.only:
-        extra_results = mod.extra_checks(tier, seed)
+        # extra (bounded / structural) checks run the real code natively: in a worker with a time limit, so that a
+        # change that makes the real code loop forever ends as a checker error instead of hanging the check
+        ctx = mp.get_context("spawn")
+        extra_timeout = float(os.environ.get("VERIF_EXTRA_TIMEOUT", "900" if tier == "quick" else "3600"))
+        pool = ctx.Pool(1, initializer=_worker_init)
+        try:
+            extra_results = pool.apply_async(_run_extra, (pid, tier, seed)).get(timeout=extra_timeout)
+        except mp.TimeoutError:
+            results.append(_error_result((pid, "extra_checks", tier, seed, tier), f"checker-error: the extra (native) checks did not finish within {extra_timeout:.0f}s (the real code may not terminate on one of the enumerated configurations; undecided, not a violation)"))
+        except Exception as e:
+            results.append(_error_result((pid, "extra_checks", tier, seed, tier), f"checker-error: extra checks failed: {e!r}"))
+        finally:
+            pool.terminate()
 
     return report(pid, tier, seed, mod, results, extra_results, t0, write=not args.no_evidence and not args.only)
 
